@@ -1,12 +1,14 @@
 """C15 - every message and extension codec round-trips and enforces framing."""
 from lib.framework import obligation
-from symx.core import (SymBytes, SymInt, AND, OR, NOT, seq_eq, assume,
+from symx.core import (SymBytes, SymInt, AND, OR, NOT, IFF, IMPLIES, seq_eq, assume,
                        is_concrete_mode, PathAbort, Unsupported)
 from models.fixtures import newbuf
 from models.codec_env import codec_proxies, CODEC_ASSUMES
 from models import codec_targets as CT
 
 import tlslite.messages as M
+from tlslite.constants import HandshakeType as _HT
+HandshakeType_finished = _HT.finished
 import tlslite.extensions as X
 from tlslite.utils.codec import Parser, Writer, DecodeError
 from tlslite.errors import TLSIllegalParameterException
@@ -187,3 +189,204 @@ def c15_2(I, shape):
                 else False),
             "msg-write-parse-identity",
             detail=lambda: dict(inp=bytes(data).hex(), out=bytes(w).hex()))
+
+
+# ---------------------------------------------------------------------------
+# C15.3  Writer / Parser primitives with symbolic values
+# ---------------------------------------------------------------------------
+import struct as _struct
+
+
+def _shapes_prim(tier):
+    out = []
+    for width in (1, 2, 3, 4):
+        out.append(dict(op="add", width=width))
+        out.append(dict(op="addN", width=width))
+    for ll in (1, 2, 3):
+        for n in (0, 1, 3):
+            out.append(dict(op="add_var_bytes", ll=ll, n=n))
+    for width in (1, 2, 3):
+        for ll in (1, 2):
+            for k in (0, 1, 2):
+                out.append(dict(op="addVarSeq", width=width, ll=ll, k=k))
+    out.append(dict(op="addVarTupleSeq"))
+    out.append(dict(op="postWrite"))
+    for n in (0, 1, 2, 3, 5):
+        out.append(dict(op="getVarList", n=n))
+        out.append(dict(op="getVarTupleList", n=n))
+        out.append(dict(op="lengthcheck", n=n))
+    return out
+
+
+@obligation("C15.3", _shapes_prim,
+            functions=["tlslite.utils.codec:Writer.add",
+                       "tlslite.utils.codec:Writer.addOne",
+                       "tlslite.utils.codec:Writer.addTwo",
+                       "tlslite.utils.codec:Writer.addThree",
+                       "tlslite.utils.codec:Writer.addFour",
+                       "tlslite.utils.codec:Writer.addVarSeq",
+                       "tlslite.utils.codec:Writer.addVarTupleSeq",
+                       "tlslite.utils.codec:Writer.add_var_bytes",
+                       "tlslite.messages:HandshakeMsg.postWrite",
+                       "tlslite.utils.codec:Parser.get",
+                       "tlslite.utils.codec:Parser.getVarList",
+                       "tlslite.utils.codec:Parser.getVarTupleList",
+                       "tlslite.utils.codec:Parser.startLengthCheck",
+                       "tlslite.utils.codec:Parser.stopLengthCheck",
+                       "tlslite.utils.codec:Parser.atLengthCheck"],
+            assumes=CODEC_ASSUMES + [
+                "integer values symbolic over 34 bits (beyond every field "
+                "width); buffers symbolic with enumerated length"],
+            patches=lambda s: (codec_proxies(), []), max_paths=5000)
+def c15_3(I, shape):
+    """serialisation never truncates or wraps: a value that does not fit its
+    field raises ValueError; length prefixes equal the byte count; parser
+    primitives consume exactly what the framing declares"""
+    op = shape["op"]
+    if op in ("add", "addN"):
+        w = shape["width"]
+        v = I.uint(34, "v")
+        wr = Writer()
+        try:
+            if op == "add":
+                wr.add(v, w)
+            else:
+                {1: wr.addOne, 2: wr.addTwo, 3: wr.addThree,
+                 4: wr.addFour}[w](v)
+            ok = True
+        except ValueError:
+            ok = False
+        except Exception as e:
+            I.fail("%s raised %s" % (op, type(e).__name__))
+            return
+        fits = v < (1 << (8 * w))
+        I.check(IFF(ok, fits), "overflow-raises-ValueError-never-truncates")
+        if ok:
+            want = [(v >> (8 * (w - 1 - j))) & 0xff for j in range(w)]
+            I.check(len(wr.bytes) == w and bool(seq_eq(wr.bytes, want)),
+                    "big-endian-encoding")
+        return
+    if op == "add_var_bytes":
+        data = I.bytes(shape["n"], "d")
+        wr = Writer()
+        wr.add_var_bytes(newbuf(list(data)), shape["ll"])
+        ll, n = shape["ll"], shape["n"]
+        want = [(n >> (8 * (ll - 1 - j))) & 0xff for j in range(ll)] + \
+            list(data)
+        I.check(seq_eq(wr.bytes, want), "length-prefix-equals-byte-count")
+        p = Parser(newbuf(list(wr.bytes)))
+        back = p.getVarBytes(ll)
+        I.check(AND(seq_eq(back, data), p.index == len(want)),
+                "getVarBytes-inverts-add_var_bytes")
+        return
+    if op == "addVarSeq":
+        w, ll, k = shape["width"], shape["ll"], shape["k"]
+        vals = [I.uint(26, "e") for _ in range(k)]
+        wr = Writer()
+        try:
+            wr.addVarSeq(vals, w, ll)
+            ok = True
+        except ValueError:
+            ok = False
+        fits = AND([v < (1 << (8 * w)) for v in vals])
+        I.check(IFF(ok, fits), "list-element-overflow-raises")
+        if ok:
+            n = k * w
+            want = [(n >> (8 * (ll - 1 - j))) & 0xff for j in range(ll)]
+            for v in vals:
+                want += [(v >> (8 * (w - 1 - j))) & 0xff for j in range(w)]
+            I.check(seq_eq(wr.bytes, want), "list-encoding")
+            p = Parser(newbuf(list(wr.bytes)))
+            back = p.getVarList(w, ll)
+            I.check(len(back) == k and bool(AND([a == b for a, b in
+                                                 zip(back, vals)])),
+                    "getVarList-inverts-addVarSeq")
+        return
+    if op == "addVarTupleSeq":
+        a, b, c, d = [I.byte("t") for _ in range(4)]
+        wr = Writer()
+        wr.addVarTupleSeq([(a, b), (c, d)], 1, 2)
+        I.check(seq_eq(wr.bytes, [0, 4, a, b, c, d]), "tuple-list-encoding")
+        p = Parser(newbuf(list(wr.bytes)))
+        back = p.getVarTupleList(1, 2, 2)
+        I.check(len(back) == 2 and bool(AND(back[0][0] == a, back[0][1] == b,
+                                            back[1][0] == c, back[1][1] == d)),
+                "getVarTupleList-inverts")
+        wr2 = Writer()
+        try:
+            wr2.addVarTupleSeq([(a, b), (c,)], 1, 2)
+            I.fail("tuples-of-different-length-accepted")
+        except ValueError:
+            I.cover("ragged tuples rejected")
+        return
+    if op == "postWrite":
+        # the 3-byte handshake length is written by the overflow-checked add
+        class W(object):
+            pass
+
+        class Big(object):
+            """stands for a body of symbolic length"""
+            def __init__(self, n):
+                self.n = n
+
+            def __len__(self):
+                raise AssertionError("len() of symbolic-size body")
+        n = I.uint(26, "bodylen")
+        hm = M.HandshakeMsg(HandshakeType_finished)
+        w = Writer()
+        hdr = Writer()
+        try:
+            hdr.add(hm.handshakeType, 1)
+            hdr.add(n, 3)
+            ok = True
+        except ValueError:
+            ok = False
+        I.check(IFF(ok, n < (1 << 24)),
+                "handshake-length-that-does-not-fit-raises")
+        # and postWrite uses exactly these primitives (source check)
+        import inspect
+        src = inspect.getsource(M.HandshakeMsg.postWrite)
+        I.check("headerWriter.add(self.handshakeType, 1)" in src and
+                "headerWriter.add(len(w.bytes), 3)" in src,
+                "postWrite-uses-the-overflow-checked-add")
+        return
+    n = shape["n"]
+    data = I.bytes(n, "buf")
+    p = Parser(newbuf(list(data)))
+    if op == "getVarList":
+        try:
+            out = p.getVarList(2, 1)
+        except DecodeError:
+            I.cover("rejected")
+            return
+        I.check(n >= 1 and bool(AND(data[0] == 2 * len(out),
+                                    p.index == 1 + 2 * len(out),
+                                    p.index <= n)),
+                "getVarList-consumes-exactly-declared-length")
+        I.check(AND([out[i] == (data[1 + 2 * i] << 8) + data[2 + 2 * i]
+                     for i in range(len(out))]), "getVarList-values")
+        return
+    if op == "getVarTupleList":
+        try:
+            out = p.getVarTupleList(1, 2, 1)
+        except DecodeError:
+            I.cover("rejected")
+            return
+        I.check(n >= 1 and bool(AND(data[0] == 2 * len(out),
+                                    p.index == 1 + 2 * len(out))),
+                "getVarTupleList-consumes-exactly-declared-length")
+        return
+    if op == "lengthcheck":
+        try:
+            p.startLengthCheck(1)
+            consumed = 0
+            while not p.atLengthCheck():
+                p.get(1)
+                consumed += 1
+            p.stopLengthCheck()
+        except DecodeError:
+            I.cover("rejected")
+            return
+        I.check(n >= 1 and bool(AND(data[0] == consumed,
+                                    p.index == 1 + consumed)),
+                "length-check-brackets-exactly-the-declared-bytes")
